@@ -1192,6 +1192,80 @@ def warmup_history_search(rng, n_warm, n_probe):
                 break
     return fails, {'warmup_history_calls': n}
 
+def headroom_sweep(rng, span=70):
+    """the same call made with less and less stack left (the last `span` frames before the recursion limit): at every depth the answer is the
+    fresh-import value or a RecursionError -- never another value.  (A result must not depend on where in the caller's program the call is made.)"""
+    import inspect
+    from refids import random_valid_id as _rv, ref_children_set as _kids, ref_parent as _par, ref_res as _rr
+    fails, n = [], 0
+    a5c, _ = fresh_a5()
+    c5 = _rv(rng, 4, 9)
+    sib = sorted(_kids(_par(c5, _rr(c5) - 1), _rr(c5)))
+    calls = [('compact', (sib + [_rv(rng, 0, 1)],)), ('uncompact', ([_rv(rng, 2, 5)], 7)), ('cell_to_children', (_rv(rng, 0, 6),)), ('cell_to_parent', (_rv(rng, 3, 29),)),
+             ('lonlat_to_cell', ((rng.uniform(-180, 180), rng.uniform(-85, 85)), rng.choice([3, 9, 20]))), ('cell_to_lonlat', (_rv(rng, 2, 29),)),
+             ('cell_to_boundary', (_rv(rng, 2, 29), {'segments': 2})), ('u64_to_hex', (_rv(rng, 0, 29),)), ('get_num_cells', (7,))]
+    lim = sys.getrecursionlimit()
+    for name, args in calls:
+        try:
+            ref = canon(call(a5c, name, copy.deepcopy(args)))
+        except Exception:
+            continue
+        a5w, _ = fresh_a5()
+        try:
+            call(a5w, name, copy.deepcopy(args))     # caches warm: the sweep is about stack depth, not about cold starts
+        except Exception:
+            pass
+        fn_ = getattr(a5w, name)
+        box = {}
+        def descend(k):
+            # nothing but the library call itself at the bottom: copying the arguments or canonicalising the result there would eat the very frames
+            # whose absence is being tested
+            if k <= 0:
+                return fn_(*box['a'])
+            return descend(k - 1)
+        here = len(inspect.stack(0))
+        for extra in range(max(0, lim - here - span), lim - here + 1):
+            box['a'] = copy.deepcopy(args)
+            try:
+                got = canon(descend(extra))
+            except RecursionError:
+                n += 1
+                continue
+            except Exception as e:  # noqa
+                got = ('EXC', type(e).__name__)
+            n += 1
+            if got != ref:
+                fails.append({'what': f'{name}{args!r} called with {lim - here - extra} stack frames left returns {str(got)[:70]} (fresh import, shallow stack: {str(ref)[:70]}; a RecursionError would be fine, another value is not)',
+                              'history': [(name, args)], 'headroom': lim - here - extra})
+                break
+    return fails, {'headroom_calls': n}
+
+def run_headroom(name, args, span=90):
+    import inspect
+    a5c, _ = fresh_a5()
+    ref = canon(call(a5c, name, copy.deepcopy(args)))
+    a5w, _ = fresh_a5()
+    call(a5w, name, copy.deepcopy(args))
+    fn_ = getattr(a5w, name)
+    box = {}
+    def descend(k):
+        if k <= 0:
+            return fn_(*box['a'])
+        return descend(k - 1)
+    lim = sys.getrecursionlimit()
+    here = len(inspect.stack(0))
+    for extra in range(max(0, lim - here - span), lim - here + 1):
+        box['a'] = copy.deepcopy(args)
+        try:
+            got = canon(descend(extra))
+        except RecursionError:
+            continue
+        except Exception as e:  # noqa
+            got = ('EXC', type(e).__name__)
+        if got != ref:
+            return True
+    return False
+
 def run_history(hist):
     """True iff the last call of the history returns something else than on a fresh import"""
     a5w, _ = fresh_a5()
